@@ -1,10 +1,12 @@
 #!/bin/bash
 # usage: tools/try_scratch.sh <patch.diff> <prop> [tier]  — apply to the scratch worktree $SCR (default /tmp/c13h/repo), run
-# this tree's check against it (VERIF_REPO), revert. Leaves evidence/ of this tree rewritten: rerun on /repo afterwards.
+# this tree's check against it (VERIF_REPO), revert. The evidence file of the property is put back afterwards.
 set -u
 SCR=${SCR:-/tmp/c13h/repo}
 patch=$1; prop=$2; tier=${3:-quick}
 git -C $SCR checkout -q -- . ; git -C $SCR clean -fdq
 git -C $SCR apply "$patch" || { echo "patch does not apply"; exit 3; }
+V="$(cd "$(dirname "$0")/.." && pwd)"; cp "$V/evidence/$prop.json" "/tmp/try_scratch_$prop.ev" 2>/dev/null
 VERIF_REPO=$SCR "$(dirname "$0")/../check" "$prop" "$tier" 2>&1 | grep -E "^VIOLATION|^KNOWN|CHECK-ERROR|obligations" | head -5
 git -C $SCR checkout -q -- . ; git -C $SCR clean -fdq
+[ -f "/tmp/try_scratch_$prop.ev" ] && mv "/tmp/try_scratch_$prop.ev" "$V/evidence/$prop.json"   # the evidence of the unchanged tree stays
